@@ -28,6 +28,15 @@ Every vector is parsed after `optreset = 1` following another
 vector (other table, possibly abandoned in the middle of a pack, its argv
 freed), and a sample again as the first parse of a fresh process; both must
 equal the model.
+
+getopt(argc, argv) is given a COUNT: a vector is also run as the first argc
+words of a longer array which holds other, non-NULL words at argv[argc],
+argv[argc+1], ... and no NULL at all (a program parsing one piece of a longer
+command line, or a hand-built vector).  The model is given exactly the counted
+words; in particular an argument-taking option which is the last counted word
+lacks its argument whatever sits behind it.  Further uses: argc == 0 with
+argv[0] == NULL (or an uncounted word there), and the very same vector parsed
+twice, with tables of different size, separated by optreset.
 """
 import itertools
 import random
@@ -329,21 +338,73 @@ def rand_args(rnd, tid, maxlen=8):
     return out
 
 
+TRIVIAL = {'operand', 'argc0', 'words_beyond_argc', 'same_vector_reparsed_with_another_table',
+           'same_vector_large_table_then_small', 'same_vector_small_table_then_large'}
+
+
 def nontrivial(flags):
-    return bool(flags - {'operand'})
+    return bool(flags - TRIVIAL)
 
 
-def mk_case(rnd, tid, args, kind='getopt', with_prev=True):
+# Tables by number of slots (source lines between GETOPT_SWITCH and
+# GETOPT_DEFAULT): the same vector parsed twice with tables of different size.
+SMALL_TABLES = (11, 12, 5)      # 0, 1, 1 slots
+LARGE_TABLES = (10, 2, 1)       # 272, ~22, ~19 slots
+
+
+def beyond_words(rnd, tid):
+    """Non-NULL words which sit in the array behind argv[argc - 1]."""
+    al = alphabet(tid)
+    return [rnd.choice(al) if rnd.random() < 0.8 else rnd.choice(['junk', '-', '--', '', 'v'])
+            for _ in range(rnd.choice([1, 1, 1, 2, 3]))]
+
+
+def mk_case(rnd, tid, args, kind='getopt', with_prev=True, beyond=None, noargv0=False):
+    """beyond: words placed at argv[argc], argv[argc+1], ... of an array with no
+    NULL in it; getopt is given argc = 1 + len(args) and must behave as the
+    documented grammar says for exactly those words.  noargv0: argc == 0."""
     opterr = 1 if rnd.random() < 0.3 else 0
-    exp, ev, flags = expect(tid, args, opterr)
-    line = 'G %d %d %s' % (tid, opterr, enc_argv(args))
+    if noargv0:
+        # nothing to parse: no label is reached, the scan index keeps its
+        # initial value 1, nothing is written
+        args = []
+        exp, ev, flags = '- 1 0', [], {'argc0'}
+        spec = '0'
+    else:
+        exp, ev, flags = expect(tid, args, opterr)
+        spec = enc_argv(args)
+    if beyond:
+        spec += '/' + enc_argv(beyond)
+    line = 'G %d %d %s' % (tid, opterr, spec)
+    same = False
     if with_prev:
         ptid = pick_table(rnd)
-        pargs = rand_args(rnd, ptid, 5)
         # abandoned once plimit labels were reached, if that many are reached
         plimit = rnd.randrange(1, 5) if rnd.random() < 0.6 else -1
-        line += ' %d %d %s' % (ptid, plimit, enc_argv(pargs))
+        if rnd.random() < 0.08:
+            # the very same vector first, with a table of another size
+            same = True
+            if rnd.random() < 0.7:
+                ptid = rnd.choice(LARGE_TABLES if tid in SMALL_TABLES else
+                                  SMALL_TABLES if tid in LARGE_TABLES else SMALL_TABLES + LARGE_TABLES)
+            line += ' %d %d =' % (ptid, plimit)
+        else:
+            pargs = rand_args(rnd, ptid, 5)
+            pspec = enc_argv(pargs)
+            if rnd.random() < 0.2:
+                pspec += '/' + enc_argv(beyond_words(rnd, ptid))
+            line += ' %d %d %s' % (ptid, plimit, pspec)
     flags = set(flags)
+    if beyond:
+        flags.add('words_beyond_argc')
+        if 'missing' in flags:
+            flags.add('missing_argument_with_a_word_at_argv_argc')
+    if same:
+        flags.add('same_vector_reparsed_with_another_table')
+        if ptid in LARGE_TABLES and tid in SMALL_TABLES:
+            flags.add('same_vector_large_table_then_small')
+        if ptid in SMALL_TABLES and tid in LARGE_TABLES:
+            flags.add('same_vector_small_table_then_large')
     if exp.endswith(' 0'):
         if opterr and ev and any(e[0] != 'opt' for e in ev):
             flags.add('warnings_silenced_by_missing_arg')
@@ -353,6 +414,21 @@ def mk_case(rnd, tid, args, kind='getopt', with_prev=True):
     return {'line': line, 'expect': exp, 'kind': kind,
             'sig': sig(tid, labels, exp.split(' ')[1], tuple(sorted(flags))),
             'nt': nontrivial(flags), 'flags': flags, 'tid': tid}
+
+
+def random_case(rnd, tid, **kw):
+    """40%: the vector is the first argc words of a longer array (cut at a
+    random place, or the whole vector followed by other words); 1%: argc == 0."""
+    args = rand_args(rnd, tid)
+    x = rnd.random()
+    if x < 0.01:
+        return mk_case(rnd, tid, [], noargv0=True, beyond=beyond_words(rnd, tid) if x < 0.005 else None, **kw)
+    if x < 0.21 and args:
+        k = rnd.randrange(len(args))
+        return mk_case(rnd, tid, args[:k], beyond=args[k:], **kw)
+    if x < 0.41:
+        return mk_case(rnd, tid, args, beyond=beyond_words(rnd, tid), **kw)
+    return mk_case(rnd, tid, args, **kw)
 
 
 def exhaustive(tid, length, reduced):
@@ -415,12 +491,26 @@ def _shard(a):
             if tid not in tsamples and 'tailopt' in cases[-1]['flags'] and length >= 2:
                 tsamples[tid] = '%s -> R %s' % (cases[-1]['line'], cases[-1]['expect'])
             acc['stats']['exhaustive_vectors'] = acc['stats'].get('exhaustive_vectors', 0) + 1
+            # the second form of the same vector: a longer array without a
+            # NULL, of which these are the first argc words (every vector of
+            # length <= 2, every other longer one)
+            if length <= 2 or rnd.random() < 0.5:
+                cases.append(mk_case(rnd, tid, list(args), with_prev=(rnd.random() < 0.25),
+                                     beyond=beyond_words(rnd, tid)))
+                if 'bsample' not in acc and 'missing' in cases[-1]['flags'] and length >= 2:
+                    acc['bsample'] = '%s -> R %s' % (cases[-1]['line'], cases[-1]['expect'])
+                acc['stats']['exhaustive_vectors_also_as_prefix_of_a_longer_array'] = \
+                    acc['stats'].get('exhaustive_vectors_also_as_prefix_of_a_longer_array', 0) + 1
             flush()
+        if length == 0 and tid % n == i:
+            # argc == 0: argv[0] == NULL, or a non-NULL word that is not counted
+            cases.append(mk_case(rnd, tid, [], noargv0=True))
+            cases.append(mk_case(rnd, tid, [], noargv0=True, beyond=beyond_words(rnd, tid)))
     for _ in range(nrand):
         if acc.get('stop'):
             break
         tid = pick_table(rnd)
-        cases.append(mk_case(rnd, tid, rand_args(rnd, tid)))
+        cases.append(random_case(rnd, tid))
         flush()
     flush(True)
     return acc
@@ -433,7 +523,7 @@ def _fresh(a):
     acc = {'evals': 0, 'sigs': set(), 'alarms': [], 'stats': {}}
     for _ in range(count):
         tid = pick_table(rnd)
-        c = mk_case(rnd, tid, rand_args(rnd, tid), kind='getopt-fresh', with_prev=False)
+        c = random_case(rnd, tid, kind='getopt-fresh', with_prev=False)
         run_batch(exe, [c], acc)
         if acc.get('stop'):
             break
@@ -518,6 +608,15 @@ def run(ctx):
     for r in res[:2]:
         for s in r['samples'][:1]:
             ctx.add_sample(s[:200])
+    for r in res:
+        if r.get('bsample'):
+            ctx.add_sample(r['bsample'][:300])
+            break
+    if not ctx.violations:
+        for k in ('seen_missing_argument_with_a_word_at_argv_argc', 'seen_argc0',
+                  'seen_same_vector_large_table_then_small', 'seen_same_vector_small_table_then_large'):
+            if not sum(r['stats'].get(k, 0) for r in res):
+                raise core.Inconclusive('no vector of the family %s was executed' % k[5:])
     for tid in (6, 7, 9, 10, 12, 8):        # compact tables: a vector reaching the last slots, with the answer
         for r in res:
             if tid in r.get('tsamples', {}):
@@ -557,13 +656,31 @@ def run(ctx):
         'without =v, "=", unknown options, "-", "--", "", operands, packs mixing argument-taking '
         'options, abbreviations/extensions of long names) for the lengths listed in '
         'exhaustive_plan, random to length 8; a sample is parsed as the first parse of a fresh '
-        'process.  non-trivial = the model uses at least one rule beyond "first operand stops" '
+        'process.  Second form (flag words_beyond_argc; every exhaustive vector of length <= 2, half of the longer '
+        'ones, 40% of the random and fresh-process ones, 20% of the previous vectors): the counted words are '
+        'followed in the array by 1-3 other non-NULL words (options, "--", "-", "", operands, or the rest of the '
+        'same random command line cut at a random place) and the array (exactly argc + extra pointers) holds no '
+        'NULL; getopt gets argc and the expected trace, optarg values, warnings and final optind are the '
+        'model\'s for the counted words only - counter seen_missing_argument_with_a_word_at_argv_argc = vectors '
+        'whose last counted word is an argument-taking option (-f, packed -bf, --foo) with a word behind it that '
+        'must not be taken.  argc == 0 (flag argc0): argv[0] == NULL or an uncounted word, expected no label, '
+        'optind 1, nothing written.  8% of the cases parse the very same array and strings twice (flag '
+        'same_vector_reparsed_with_another_table), first with another table (biased to 272/22/19 slots before 0/1 '
+        'slots and the reverse: counters seen_same_vector_large_table_then_small / small_table_then_large), '
+        'possibly abandoned, then optreset and the judged parse.  Long options one of which is a proper prefix '
+        'of another are registered in both orders (table 2: --foo before --foobar, --fo and --f after --foo; '
+        'table 4: --key before --key-file, --k after both).  non-trivial = the model uses at least one rule beyond "first operand stops" '
         '(pack, attached/next/= argument, --, unknown, unwanted =value, missing argument); '
         'distinct = distinct (table, label sequence, final optind, rules used incl. warned / '
         'warnings silenced)')
     ctx.cov['sanitizers'] = ('gcc -fsanitize=address,undefined; every argv string and the argv array '
-                             '(argc+1 pointers) are exact-size heap blocks; previous argv freed before the next parse')
+                             '(argc+1 pointers ending in NULL, or argc+k pointers with k uncounted words and no NULL) are exact-size '
+                             'heap blocks; previous argv freed before the next parse')
     ctx.assumptions += [
+        'getopt(argc, argv) may be given a count smaller than the array: argv[argc] and what follows are not part '
+        'of the command line and need not be NULL (the interface takes argc; nothing in getopt.h requires a '
+        'terminator)',
+        'a parse with argc == 0 reaches no label and leaves optind at its initial value 1',
         'after an unregistered letter inside a pack the remaining letters are still processed '
         '(standard getopt behaviour; the header is silent)',
         "'=' has no special meaning after a short option: it is the next letter of the pack or part "
